@@ -8,6 +8,12 @@ against historical readers).  [P]: every (serial, value) read through the histor
 refusal of future bounds, failure of commit / new_oid.  Direct oracle (model-free): the state at the
 bound computed from the harness's own record of the history (newest write with tid < bound per
 oid).  Model tie: the same history / probes replayed on the Lean model (Drivers/Mvcc.lean).
+Multi-database section: two databases sharing `databases`, cross-database references from 'one' to
+'two'; a historical connection on 'one' must show the objects of 'two' at the same bound.
+Candidate finding (unchanged tree, signature C15:multi-secondary-bound-refused): when the newest
+transaction of 'two' is more than one below the bound, Connection.get_connection's
+databases['two'].open(before=bound) is refused as "in the future" although the bound is valid for
+the historical connection; probed, counted, and reported once listed in known_findings.json.
 """
 import datetime
 import json
@@ -87,7 +93,35 @@ def gen_case(rng, thorough):
         case['pack'] = rng.randrange(1, n1)          # pack just after that many history ops
     if rng.random() < (0.5 if thorough else 0.25):
         case['sched'] = dict(seed=rng.randrange(1 << 30), stick=rng.choice([0.0, 0.5, 0.8]))
+    if rng.random() < 0.4:
+        case['multi'] = dict(ops=gen_multi_ops(rng, rng.choice([4, 6, 9])),
+                             later=gen_multi_ops(rng, rng.choice([2, 3, 4])))
     return case
+
+
+def gen_multi_ops(rng, n):
+    """transactions over a two-database multi-database ('one' holds cross-database references to 'two')"""
+    ops = [['xnew', rng.randrange(1 << 30)]]
+    for _ in range(n):
+        r = rng.random()
+        v = rng.randrange(1 << 30)
+        if r < 0.22:
+            ops.append(['set2', v])
+        elif r < 0.36:
+            ops.append(['set1', v])
+        elif r < 0.50:
+            ops.append(['both', v])
+        elif r < 0.62:
+            ops.append(['xnew', v])
+        elif r < 0.72:
+            ops.append(['new2', v])
+        elif r < 0.82:
+            ops.append(['xref', v])
+        elif r < 0.90:
+            ops.append(['new1', v])
+        else:
+            ops.append(['del2', v])
+    return ops
 
 
 # ---------------------------------------------------------------- the harness's own record
@@ -183,6 +217,7 @@ class Obs:
         self.nprobe = 0
         self.nontrivial = False
         self.hist = {}
+        self.findings = []   # candidate findings of the unchanged tree (reported only when listed as known)
 
     def count(self, k, n=1):
         self.hist[k] = self.hist.get(k, 0) + n
@@ -569,6 +604,8 @@ def run_case(case, tmp, full=True):
             world.close()
     if case.get('sched') and not obs.bad:
         run_sched_section(case, tmp, obs)
+    if case.get('multi') and not obs.bad:
+        run_multi_section(case, tmp, obs)
     return obs
 
 
@@ -656,6 +693,284 @@ def run_sched_section(case, tmp, obs):
     shutil.rmtree(d, ignore_errors=True)
 
 
+# ---------------------------------------------------------------- multi-database section
+def expected_multi(rec1, rec2, bound, oids2):
+    st1, st2 = rec1.state_at(bound), rec2.state_at(bound)
+    out = []
+    if 0 not in st1:
+        out.append('root1 KeyError')
+    else:
+        mapping = st1[0][1]
+        out.append('root1 serial=%d names=%s' % (st1[0][0], ','.join(sorted(mapping))))
+        for name in sorted(mapping):
+            dbn, oid = mapping[name]
+            st = st1 if dbn == 'one' else st2
+            if oid not in st or st[oid][1] is None:
+                out.append('name %s KeyError' % name)
+            else:
+                out.append('name %s db=%s oid=%d serial=%d val=%s' % (name, dbn, oid, st[oid][0], st[oid][1]))
+    return out + ['two: ' + l for l in expected_reads(rec2, bound, oids2)]
+
+
+def real_multi(h, oids2):
+    from ZODB.POSException import POSKeyError
+    out = []
+    try:
+        root = h.root()
+        names = sorted(root.keys())
+        out.append('root1 serial=%d names=%s' % (u64(root._p_serial), ','.join(names)))
+        for name in names:
+            try:
+                o = root[name]                      # a cross-database reference for the x… names
+                v = o.value
+                out.append('name %s db=%s oid=%d serial=%d val=%s'
+                           % (name, o._p_jar.db().database_name, u64(o._p_oid), u64(o._p_serial), v))
+            except POSKeyError:
+                out.append('name %s KeyError' % name)
+    except POSKeyError:
+        out.append('root1 KeyError')
+    h2 = h.get_connection('two')
+    return out + ['two: ' + l for l in real_reads(h2, oids2)], h2
+
+
+def run_multi_section(case, tmp, obs):
+    """two databases sharing `databases`; historical connections on 'one' must show the objects of
+    'two' (reached through cross-database references and get_connection) at the SAME bound, and a
+    change to such an object must not be committable"""
+    import random
+    import transaction
+    import ZODB
+    from ZODB.FileStorage import FileStorage
+    from ZODB.MappingStorage import MappingStorage
+    from ZODB.POSException import ReadOnlyHistoryError, ReadOnlyError
+    from ZODB.tests.MinPO import MinPO
+    rng = random.Random(case['probe_seed'] + 17)
+    d = os.path.join(tmp, 'c15multi')
+    shutil.rmtree(d, ignore_errors=True)
+    os.makedirs(d)
+    obs.model('reset', 'ok')                        # the model replays database 'two' of this section
+    with clock.scripted():
+        dbs = {}
+        sts = {}
+        recs = {}
+        for n in ('one', 'two'):
+            sts[n] = FileStorage(os.path.join(d, n + '.fs')) if case['kind'] == 'file' else MappingStorage(n)
+            ZODB.DB(sts[n], databases=dbs, database_name=n)
+            recs[n] = Record()
+            recs[n].add(u64(sts[n].lastTransaction()), {0: {}})
+        model_txn(obs, recs['two'].ltid(), {0: {}}, 1)
+        rec1, rec2 = recs['one'], recs['two']
+        tm = transaction.TransactionManager()
+        c1 = dbs['one'].open(tm)
+        c2 = c1.get_connection('two')
+        cnt = [0]
+
+        def commit(w1, w2):
+            tm.commit()
+            for n, w in (('one', w1), ('two', w2)):
+                lt = u64(sts[n].lastTransaction())
+                if lt != recs[n].ltid():
+                    recs[n].add(lt, w)
+                    if n == 'two':
+                        model_txn(obs, lt, w, len(recs[n].txns))
+                elif w:
+                    raise InfraError('multi-database commit did not reach database %s' % n)
+
+        def apply(op):
+            tm.begin()
+            m1 = dict(rec1.current()[0][1])
+            m2 = dict(rec2.current()[0][1])
+            r1, r2 = c1.root(), c2.root()
+            k, v = op
+            obs.count('multi-op:' + k)
+            cnt[0] += 1
+            loc1 = sorted(n for n in m1 if m1[n][0] == 'one')
+            n2 = sorted(m2)
+            w1, w2 = {}, {}
+            if k == 'set2' and n2:
+                name = n2[v % len(n2)]
+                r2[name].value = v
+                w2[m2[name]] = v
+            elif k == 'set1' and loc1:
+                name = loc1[v % len(loc1)]
+                r1[name].value = v
+                w1[m1[name][1]] = v
+            elif k == 'both' and n2:
+                name = n2[v % len(n2)]
+                r2[name].value = v
+                w2[m2[name]] = v
+                if loc1:
+                    nm = loc1[v % len(loc1)]
+                    r1[nm].value = v + 1
+                    w1[m1[nm][1]] = v + 1
+                else:
+                    r1['m%d' % cnt[0]] = o = MinPO(v + 1)
+                    c1.add(o)
+                    m1['m%d' % cnt[0]] = ('one', u64(o._p_oid))
+                    w1[u64(o._p_oid)] = v + 1
+                    w1[0] = m1
+            elif k == 'xnew':
+                o = MinPO(v)
+                c2.add(o)
+                r2['n%d' % cnt[0]] = o
+                r1['x%d' % cnt[0]] = o              # cross-database reference
+                m2['n%d' % cnt[0]] = u64(o._p_oid)
+                m1['x%d' % cnt[0]] = ('two', u64(o._p_oid))
+                w2 = {u64(o._p_oid): v, 0: m2}
+                w1 = {0: m1}
+            elif k == 'new2':
+                o = MinPO(v)
+                c2.add(o)
+                r2['n%d' % cnt[0]] = o
+                m2['n%d' % cnt[0]] = u64(o._p_oid)
+                w2 = {u64(o._p_oid): v, 0: m2}
+            elif k == 'xref' and n2:
+                name = n2[v % len(n2)]
+                r1['x%d' % cnt[0]] = r2[name]
+                m1['x%d' % cnt[0]] = ('two', m2[name])
+                w1 = {0: m1}
+            elif k == 'new1':
+                o = MinPO(v)
+                c1.add(o)
+                r1['m%d' % cnt[0]] = o
+                m1['m%d' % cnt[0]] = ('one', u64(o._p_oid))
+                w1 = {u64(o._p_oid): v, 0: m1}
+            elif k == 'del2' and len(n2) > 1:
+                name = n2[v % len(n2)]
+                del r2[name]
+                del m2[name]
+                w2 = {0: m2}
+            else:
+                tm.abort()
+                return
+            commit(w1, w2)
+
+        try:
+            for op in case['multi']['ops']:
+                apply(op)
+            top = min(rec1.ltid(), rec2.ltid()) + 1
+            tids = sorted(set(t for t, _ in rec1.txns[1:] + rec2.txns[1:]))
+            cands = []
+            for t in tids:
+                cands += [('at', t), ('before', t), ('at', t - 1), ('before', t + 1)]
+            cands = [(kw, v) for kw, v in cands if (v + 1 if kw == 'at' else v) <= top]
+            keep_idx = set(rng.sample(range(len(cands)), min(2, len(cands))))
+            kept = []
+            nh = 0
+            for i, (kw, v) in enumerate(cands):
+                bound = v + 1 if kw == 'at' else v
+                htm = transaction.TransactionManager()
+                ctx = 'multi-database %s=%d' % (kw, v)
+                h = dbs['one'].open(htm, **{kw: p64(v)})
+                obs.nprobe += 1
+                obs.count('probe:multi:' + kw)
+                oids2 = sorted(rec2.all_oids)
+                real, h2 = real_multi(h, oids2)
+                check_reads(obs, 'multi-database open', 'C15:multi-read-differs', real,
+                            expected_multi(rec1, rec2, bound, oids2), ctx)
+                if h2.before != h.before or h2.before is None or u64(h2.before) != bound:
+                    obs.bad.append(('C15:multi-bound-differs', '%s: get_connection("two").before is %r, the '
+                                    'historical connection\'s bound is %d'
+                                    % (ctx, h2.before and u64(h2.before), bound)))
+                obs.model('hopen before %d' % bound, 'hist=%d before=%d' % (nh, bound))
+                model_reads(obs, nh, rec2, bound, oids2)
+                hk = nh
+                nh += 1
+                # a change to an object of database 'two' reached from the historical connection
+                st1, st2 = rec1.state_at(bound), rec2.state_at(bound)
+                target = None
+                if 0 in st1:
+                    for name in sorted(st1[0][1]):
+                        dbn, oid = st1[0][1][name]
+                        if dbn == 'two' and oid in st2 and st2[oid][1] is not None:
+                            target = h.root()[name]         # through the cross-database reference
+                            break
+                if target is None and 0 in st2:
+                    for name in sorted(st2[0][1]):
+                        if st2[0][1][name] in st2:
+                            target = h2.root()[name]        # through get_connection('two')
+                            break
+                if target is not None:
+                    lt_before = (u64(sts['one'].lastTransaction()), u64(sts['two'].lastTransaction()))
+                    try:
+                        target.value = -7
+                        htm.commit()
+                        obs.bad.append(('C15:multi-commit-allowed', '%s: a change to an object of database '
+                                        '"two" reached from the historical connection was committed' % ctx))
+                    except (ReadOnlyHistoryError, ReadOnlyError):
+                        obs.count('multi-commit-refused')
+                    htm.abort()
+                    obs.model('hcommit %d' % hk, 'err:ReadOnlyHistory')
+                    if (u64(sts['one'].lastTransaction()), u64(sts['two'].lastTransaction())) != lt_before:
+                        if not any(sg == 'C15:multi-commit-allowed' for sg, _ in obs.bad):
+                            obs.bad.append(('C15:multi-commit-allowed', '%s: lastTransaction moved' % ctx))
+                        raise StopCase()
+                    real, _ = real_multi(h, oids2)
+                    check_reads(obs, 'multi-database after aborted write', 'C15:multi-read-differs', real,
+                                expected_multi(rec1, rec2, bound, oids2), ctx)
+                if bound <= min(rec1.ltid(), rec2.ltid()):
+                    obs.count('multi-bound-inside-history')
+                if i in keep_idx:
+                    kept.append((h, htm, bound, ctx))
+                else:
+                    h.close()
+            # a bound that is fine for 'one' but more than one past the newest transaction of 'two'
+            if rec1.ltid() > rec2.ltid() + 1:
+                b = rec1.ltid() + 1
+                hx = dbs['one'].open(transaction.TransactionManager(), at=p64(rec1.ltid()))
+                oids2 = sorted(rec2.all_oids)
+                try:
+                    real, _ = real_multi(hx, oids2)
+                    check_reads(obs, 'multi-database, other database older than the bound',
+                                'C15:multi-read-differs', real, expected_multi(rec1, rec2, b, oids2),
+                                'multi-database at=%d' % rec1.ltid())
+                except ValueError as e:
+                    obs.count('candidate:multi-secondary-bound-refused')
+                    obs.findings.append(('C15:multi-secondary-bound-refused',
+                                         'historical connection on database "one" at its newest transaction '
+                                         'cannot reach database "two" (whose newest transaction is older): %s' % e))
+                hx.close()
+            for j, op in enumerate(case['multi']['later']):
+                n_before = len(rec2.txns)
+                apply(op)
+                for h, htm, bound, ctx in kept:
+                    if len(rec2.txns) > n_before and any(o in rec2.state_at(bound) for o in rec2.txns[-1][1]) \
+                            and bound <= rec2.txns[n_before - 1][0]:
+                        obs.nontrivial = True
+                    if (j % 3) == 1:
+                        h.sync()
+                    elif (j % 3) == 2:
+                        h.cacheMinimize()
+                        h.get_connection('two').cacheMinimize()
+                    oids2 = sorted(rec2.all_oids)
+                    real, _ = real_multi(h, oids2)
+                    check_reads(obs, 'multi-database after later commit', 'C15:multi-moved-after-commit', real,
+                                expected_multi(rec1, rec2, bound, oids2), ctx)
+            for h, htm, bound, ctx in kept:
+                htm.abort()
+                h.close()
+            obs.count('multi-sections')
+        except StopCase:
+            pass
+        except InfraError:
+            raise
+        except Exception as e:      # noqa: BLE001
+            obs.bad.append(('C15:multi-error', 'multi-database section: unexpected %s: %s'
+                            % (type(e).__name__, str(e)[:200])))
+        finally:
+            try:
+                tm.abort()
+                c1.close()
+            except Exception:       # noqa: BLE001
+                pass
+            for n in ('one', 'two'):
+                try:
+                    dbs[n].close()
+                except Exception:   # noqa: BLE001
+                    pass
+    shutil.rmtree(d, ignore_errors=True)
+
+
 # ---------------------------------------------------------------- model comparison
 def check_line(exp, got):
     if exp is None:
@@ -711,20 +1026,33 @@ def main(argv=None):
         ck.case(case, obs['nontrivial'],
                 sample=dict(kind=case['kind'], ops=case['ops'][:6], later=case['later'][:3],
                             probes=obs['nprobe']) if obs['nontrivial'] else None)
+        for fsig, fwhat in obs.get('findings', [])[:1]:
+            # candidate finding of the unchanged tree (see the module docstring): surfaced as
+            # KNOWN-FINDING once the coordinator lists its signature, counted in the histogram otherwise
+            import re
+            if any(k.get('status', 'open') == 'open' and re.fullmatch(k['signature'], fsig) for k in ck.known):
+                ck.violation(fsig, fwhat, dict(case=case))
         if obs['bad']:
             sig = obs['bad'][0][0]
 
-            def fails(sub, case=case, sig=sig):
-                n1 = len(case['ops'])
-                c = dict(case, ops=[o for i, o in sub if i < n1], later=[o for i, o in sub if i >= n1],
-                         pack=None if case.get('pack') is None else min(case['pack'], max(1, len([1 for i, o in sub if i < n1]))))
-                o = run_case(c, ck.tmp, full=True)
-                return any(s == sig for s, _ in o.bad)
-            flat = list(enumerate(case['ops'] + case['later']))
-            small = ddmin(flat, fails, max_tests=60)
-            n1 = len(case['ops'])
-            c = dict(case, ops=[o for i, o in small if i < n1], later=[o for i, o in small if i >= n1],
-                     pack=None if case.get('pack') is None else min(case['pack'], max(1, len([1 for i, o in small if i < n1]))))
+            def build(sub, case=case):
+                part = {}
+                for tag, op in sub:
+                    part.setdefault(tag, []).append(op)
+                c = dict(case, ops=part.get('ops', []), later=part.get('later', []))
+                if case.get('pack') is not None:
+                    c['pack'] = min(case['pack'], max(1, len(c['ops'])))
+                if case.get('multi'):
+                    c['multi'] = dict(ops=part.get('mops', []), later=part.get('mlater', []))
+                return c
+
+            def fails(sub, sig=sig):
+                return any(s == sig for s, _ in run_case(build(sub), ck.tmp, full=True).bad)
+            flat = [('ops', o) for o in case['ops']] + [('later', o) for o in case['later']]
+            if case.get('multi'):
+                flat += [('mops', o) for o in case['multi']['ops']] + [('mlater', o) for o in case['multi']['later']]
+            small = ddmin(flat, fails, max_tests=80)
+            c = build(small)
             o = run_case(c, ck.tmp, full=True)
             if any(s == sig for s, _ in o.bad):
                 what = [w for s, w in o.bad if s == sig][0]
@@ -754,7 +1082,8 @@ def _worker(args):
     case, tmp = args
     os.makedirs(tmp, exist_ok=True)
     o = run_case(case, tmp, full=True)
-    return dict(bad=o.bad, lines=o.lines, expect=o.expect, nprobe=o.nprobe, nontrivial=o.nontrivial, hist=o.hist)
+    return dict(bad=o.bad, lines=o.lines, expect=o.expect, nprobe=o.nprobe, nontrivial=o.nontrivial, hist=o.hist,
+                findings=o.findings)
 
 
 def run_all(ck, cases):
